@@ -160,6 +160,23 @@ func TestVerifBoundedFloatAPI(t *testing.T) {
 				report("inflate", prec, []interface{}{sd, delta, jt}, fmt.Sprintf("got %v want %v", got, want))
 			}
 		}
+		cases["inflate"]++
+		{
+			// options: the arc tolerance is a length (scaled by 10^p), the miter limit is a ratio (not scaled); the
+			// expectation builds the 64-bit offsetter directly, without going through the option functions
+			delta := float64(1000+rng.Intn(4000)) / 1000
+			tol := float64(1+rng.Intn(9)) / 1000
+			ml := 1.5 + float64(rng.Intn(30))/10
+			jt := []JoinType{Round, Miter}[rng.Intn(2)]
+			got := InflatePathsD(sd, delta, jt, Polygon, WithPrecision(prec), WithArcTolerance(tol), WithMitterLimit(ml))
+			co := NewClipperOffset(ml, tol*float64(pow10[prec]), false, false)
+			co.AddPaths(s64, jt, Polygon)
+			w64 := make(Paths64, 0)
+			co.Execute64(delta*float64(pow10[prec]), &w64)
+			if want := back(w64); !same(got, want) {
+				report("inflate", prec, []interface{}{sd, delta, jt, "arc tolerance", tol, "miter limit", ml}, fmt.Sprintf("got %d paths want %d paths", len(got), len(want)))
+			}
+		}
 		cases["minkowski"]++
 		{
 			closed := rng.Intn(2) == 0
